@@ -1,60 +1,98 @@
 package utils
 
 import (
-	"runtime"
+	"sync"
 	"time"
 )
 
+// Timer is a timeout (fires once) or an interval (fires every period). Every
+// arming gets its own waiting goroutine and its own generation number: a
+// cancellation or a refresh retires the current generation, so a goroutine
+// that lost the race against Stop/Refresh at the very instant the timer was
+// due finds its generation stale and does nothing, and it always terminates.
 type Timer struct {
-	timer  *time.Timer
-	sleep  time.Duration
-	fn     func()
-	stopCh chan struct{}
+	mu      sync.Mutex
+	sleep   time.Duration
+	fn      func()
+	repeat  bool
+	gen     uint64        // current arming; bumped by arm and Stop
+	stop    chan struct{} // closed to dismiss the waiting goroutine of the current arming
+	cleared bool          // cancelled: does not fire unless refreshed
 }
 
+// arm starts the next period. t.mu must be held.
+func (t *Timer) arm() {
+	t.gen++
+	gen := t.gen
+	stop := make(chan struct{})
+	t.stop = stop
+	timer := time.NewTimer(t.sleep)
+	go func() {
+		select {
+		case <-timer.C:
+			t.fire(gen)
+		case <-stop:
+			timer.Stop()
+		}
+	}()
+}
+
+// dismiss retires the current arming. t.mu must be held.
+func (t *Timer) dismiss() {
+	t.gen++
+	if t.stop != nil {
+		close(t.stop)
+		t.stop = nil
+	}
+}
+
+func (t *Timer) fire(gen uint64) {
+	t.mu.Lock()
+	if t.cleared || gen != t.gen {
+		t.mu.Unlock()
+		return
+	}
+	t.stop = nil
+	if t.repeat {
+		t.arm()
+	}
+	t.mu.Unlock()
+	t.fn()
+}
+
+// Refresh makes the callback due one full period from now, whether the timer
+// is still pending, has already fired or was cancelled.
 func (t *Timer) Refresh() *Timer {
 	if t == nil {
 		// like ClearTimeout(nil): a heartbeat can arrive before the session has armed its timers
 		return nil
 	}
-	defer t.timer.Reset(t.sleep)
-
-	if !t.timer.Stop() {
-		go t.fn()
-	}
-
+	t.mu.Lock()
+	defer t.mu.Unlock()
+	t.cleared = false
+	t.dismiss()
+	t.arm()
 	return t
 }
 
-func (t *Timer) Unref() {
-	runtime.AddCleanup(t, func(t *Timer) {
-		if t.timer.Stop() {
-			close(t.stopCh)
-		}
-	}, t)
-}
+// Unref is kept for API compatibility; a timer never keeps the process alive.
+func (t *Timer) Unref() {}
 
 // Deprecated: this method will be removed in the next major release, please use SetTimeout instead.
 func SetTimeOut(fn func(), sleep time.Duration) *Timer {
 	return SetTimeout(fn, sleep)
 }
 
+func newTimer(fn func(), sleep time.Duration, repeat bool) *Timer {
+	t := &Timer{sleep: sleep, fn: fn, repeat: repeat}
+	t.mu.Lock()
+	t.arm()
+	t.mu.Unlock()
+	return t
+}
+
 func SetTimeout(fn func(), sleep time.Duration) *Timer {
-	timer := &Timer{
-		timer:  time.NewTimer(sleep),
-		sleep:  sleep,
-		stopCh: make(chan struct{}),
-	}
-	timer.fn = func() {
-		select {
-		case <-timer.timer.C:
-			fn()
-		case <-timer.stopCh:
-			return
-		}
-	}
-	go timer.fn()
-	return timer
+	return newTimer(fn, sleep, false)
 }
 
 func ClearTimeout(timer *Timer) {
@@ -63,31 +101,17 @@ func ClearTimeout(timer *Timer) {
 	}
 }
 
+// Stop cancels the timer. It never blocks; once it has returned no callback of
+// this timer starts any more and no goroutine of the timer stays behind.
 func (t *Timer) Stop() {
-	if t.timer.Stop() {
-		t.stopCh <- struct{}{}
-	}
+	t.mu.Lock()
+	defer t.mu.Unlock()
+	t.cleared = true
+	t.dismiss()
 }
 
 func SetInterval(fn func(), sleep time.Duration) *Timer {
-	timer := &Timer{
-		timer:  time.NewTimer(sleep),
-		sleep:  sleep,
-		stopCh: make(chan struct{}),
-	}
-	timer.fn = func() {
-		for {
-			select {
-			case <-timer.timer.C:
-				timer.timer.Reset(timer.sleep)
-				go fn()
-			case <-timer.stopCh:
-				return
-			}
-		}
-	}
-	go timer.fn()
-	return timer
+	return newTimer(fn, sleep, true)
 }
 
 func ClearInterval(timer *Timer) {
